@@ -107,6 +107,10 @@ def run(prog, R):
             if v != {("c", "usize", want)}:
                 bad.append((n, [show(x) for x in v]))
         R.ob("C10.2-prefix_len", "2 for prefixed radices, 0 for decimal", not bad, pl.at, f"{bad}")
+    import scanners
+    scanners.check(prog, R, "C10.2-digit-scanner-table")
+    scanners.suffix_start_check(prog, R, "C10.2-suffix-start-agrees")
+    scanners.exponent_markers(prog, R, "C10.3-exponent-markers")
     # lexer side: prefixes and digit scanners per base
     num = R.anchor(prog, "oq3_lexer::Cursor::number")
     if num:
